@@ -53,3 +53,34 @@ def gen_apply(rng, it, c):
     kernel = np.array([rng.choice([0.0, 1.0]) for _ in range(kshape[0] * kshape[1])]).reshape(kshape)
     func = rng.choice([focal._calc_mean, focal._calc_sum, focal._calc_min, focal._calc_max, focal._calc_range, focal._calc_std])
     return {"data": _arr(rng, shape, pool, dtype="float32"), "kernel": kernel, "func": func}
+
+
+def gen_strides(rng, it, c):
+    """sorted zone vector whose elements all occur in the strictly ascending unique vector (some ids may be absent)"""
+    ids = sorted(rng.sample([-3.0, -1.5, 0.0, 0.5, 1.0, 2.0, 5.0, 7.0, 10.0], rng.randint(0, 6)))
+    flat = sorted(rng.choice(ids) for _ in range(rng.randint(0, 9))) if ids else []
+    return {"flatten_zones": np.array(flat, dtype="float64"), "unique_zones": np.array(ids, dtype="float64")}
+
+
+def gen_calc_stats(rng, it, c):
+    ids = sorted(rng.sample([-3.0, 0.0, 0.5, 1.0, 2.0, 5.0, 7.0], rng.randint(0, 5)))
+    n = rng.randint(0, 10)
+    breaks = sorted(rng.randint(0, n) for _ in ids)
+    vals = [rng.choice([0.0, 1.0, 2.0, 3.5, float("nan"), float("inf"), -1.0, 6.0]) for _ in range(n)]
+    zi = rng.sample(ids + [99.0], rng.randint(0, len(ids) + 1))
+    func = rng.choice([np.sum, np.max, np.mean, len, np.std])
+    wrapped = lambda a, f=func: float(f(a))
+    return {"values_by_zones": np.array(vals, dtype="float64"), "zone_breaks": np.array(breaks, dtype="int64"),
+            "unique_zones": np.array(ids, dtype="float64"), "zone_ids": np.array(zi, dtype="float64"), "func": wrapped,
+            "nodata_values": rng.choice([float("nan"), 0.0, 1.0])}
+
+
+def gen_xtab2d(rng, it, c):
+    cats = sorted(rng.sample([0.0, 1.0, 2.0, 3.5, 6.0, -1.0], rng.randint(1, 5)))
+    zv = [rng.choice(cats + [float("nan"), float("inf")]) for _ in range(rng.randint(0, 8))]
+    sel = rng.sample(cats, rng.randint(0, len(cats)))
+    d = {"_total_count": []}
+    for cat in sel:
+        d[cat] = []
+    return {"zone_values": np.array(zv, dtype="float64"), "unique_cats": np.array(cats, dtype="float64"),
+            "cat_ids": np.array(sel, dtype="float64"), "nodata_values": rng.choice([float("nan"), 77.0]), "crosstab_dict": d}
